@@ -81,15 +81,25 @@ class Chk:
         if self.P is not None:
             self.P.eq(label, a, b, kind=kind)
         else:
-            a, b = float(a), float(b)
+            try:
+                a, b = float(a), float(b)
+            except (TypeError, ValueError):
+                self.fails[label] = "non-numeric value %r vs %r" % (a, b)
+                return
             if not abs(a - b) <= 1e-9 * max(1.0, abs(a), abs(b)):
                 self.fails[label] = "%r != %r" % (a, b)
 
     def le(self, label, a, b, kind):
         if self.P is not None:
+            if R.of(a) is None or R.of(b) is None:
+                return self.P.holds(label, False, kind=kind)      # a non-numeric output is a failed clause
             return self.P.holds(label, R.of(a) <= R.of(b), kind=kind)
         else:
-            a, b = float(a), float(b)
+            try:
+                a, b = float(a), float(b)
+            except (TypeError, ValueError):
+                self.fails[label] = "non-numeric value %r vs %r" % (a, b)
+                return
             if not a <= b + 1e-9 * max(1.0, abs(a), abs(b)):
                 self.fails[label] = "%r > %r" % (a, b)
 
